@@ -699,7 +699,9 @@ KINDS = ["lib", "test", "bin", "bench", "example", "proc-macro", "li b"]
 PKG_NAMES = ["crate_a", "crate_b", "crate_c", "crate_d", "crate_e", "crate_f", "crate_g"]
 REGEXES = ["a.*", "^a", "b$", "[ab]+", "a|b", "\\w+", "a\\/b", "é", "", "^crate_[a-c]$", "crate_", "a/b",
            ".", "\\\\a", "x{2,3}", "(?i)A", "\\p{Greek}", "\\//"]
-BAD_REGEXES = ["(", "[a", "*a", "a{2,1}", "\\", "(?P<n>", "\\p{Nope}", "a)/(b"]
+BAD_REGEXES = ["(", "[a", "*a", "a{2,1}", "\\", "(?P<n>", "\\p{Nope}", "a)/(b",
+               # invalid patterns with several '/' (each written \/ in the filterset) before the faulty position
+               "a/b/(", "//[a", "x/y/z/(?P<n>", "a/b/c/d/*", "/////("]
 GLOBS = ["a*", "*b", "?", "[ab]*", "{a,b}", "a", "*", "crate_*", "crate_[a-c]", "*_?", "**", "a\\b", "[!a]*",
          "{a,}b", "é*", "a b", "*/*"]
 BAD_GLOBS = ["[a", "{a", "a{b,{c}}", "[z-a]", "a}"]
